@@ -1,4 +1,5 @@
 import Hdc.Model.Discrete
+import Hdc.Lemmas.DiscreteRuns
 /-
 C18  Run-length statistics equal the longest / current run of ones.
 -/
@@ -14,17 +15,99 @@ def leadingRun (s : List Nat) : Nat := (s.takeWhile fun x => x = 1).length
 /-- stored (time, value) pairs in chronological order (oldest first) -/
 def chrono (ps : List (Int × Nat)) : List Nat := ((sortDesc ps).reverse).map (·.2)
 
--- THEOREMS TO PROVE (statements fixed)
--- theorem lroo_upper (data : List Nat) : ∀ i len, IsRun data i len → len ≤ max (lroo data) 1
--- theorem lroo_attained (data : List Nat) (h : 2 ≤ lroo data) : ∃ i, IsRun data i (lroo data)
--- theorem lroo_ne_one (data : List Nat) : lroo data ≠ 1
--- theorem lroo_le_length (data : List Nat) : lroo data ≤ data.length
--- theorem lroo_fits_int32 (data : List Nat) (h : data.length < 2 ^ 31) : wrapS 32 (lroo data) = (lroo data : Int)
--- /-- the uint8 output of the pinned tree wrapped: witness kept as a regression fact -/
--- theorem lroo_uint8_wrapped : wrapU 8 (lroo (List.replicate 300 1)) = 44 ∧ wrapU 8 (lroo (List.replicate 256 1)) = 0
--- theorem crooSorted_eq (s : List Nat) (hbin : ∀ x ∈ s, x = 0 ∨ x = 1) : crooSorted s = leadingRun s
--- theorem croo_perm_invariant (ps qs : List (Int × Nat)) (h : ps.Perm qs) (hd : (ps.map (·.1)).Nodup) : croo ps = croo qs
--- theorem croo_le_lroo (ps : List (Int × Nat)) (hbin : ∀ p ∈ ps, p.2 = 0 ∨ p.2 = 1) : croo ps ≤ max (lroo (chrono ps)) 1
--- non-vacuity examples: a concrete series with two runs; a concrete permutation pair for croo.
+-- THEOREMS (statements fixed)
+
+theorem isRun_iff (data : List Nat) (i len : Nat) : IsRun data i len ↔ Discrete.IsRun data i len := Iff.rfl
+theorem leadingRun_eq (s : List Nat) : leadingRun s = Discrete.leadingRun s := rfl
+
+theorem lroo_upper (data : List Nat) : ∀ i len, IsRun data i len → len ≤ max (lroo data) 1 :=
+  fun i len h => Discrete.lroo_upper' data i len h
+
+theorem lroo_attained (data : List Nat) (h : 2 ≤ lroo data) : ∃ i, IsRun data i (lroo data) :=
+  Discrete.lroo_attained' data h
+
+theorem lroo_ne_one (data : List Nat) : lroo data ≠ 1 := by
+  unfold lroo
+  simp only
+  split <;> omega
+
+theorem lroo_le_length (data : List Nat) : lroo data ≤ data.length := by
+  by_cases h : 2 ≤ lroo data
+  · obtain ⟨i, hi, _⟩ := lroo_attained data h
+    omega
+  · have := lroo_ne_one data
+    omega
+
+theorem lroo_fits_int32 (data : List Nat) (h : data.length < 2 ^ 31) : wrapS 32 (lroo data) = (lroo data : Int) := by
+  have hl := lroo_le_length data
+  have h1 : lroo data % 2 ^ 32 = lroo data := Nat.mod_eq_of_lt (by omega)
+  have h2 : lroo data < 2 ^ (32 - 1) := by omega
+  simp only [wrapS, h1, h2, if_true]
+
+/-- the uint8 output of the pinned tree wrapped: witness kept as a regression fact -/
+theorem lroo_uint8_wrapped : wrapU 8 (lroo (List.replicate 300 1)) = 44 ∧ wrapU 8 (lroo (List.replicate 256 1)) = 0 := by
+  decide +kernel
+
+theorem crooSorted_eq (s : List Nat) (hbin : ∀ x ∈ s, x = 0 ∨ x = 1) : crooSorted s = leadingRun s :=
+  Discrete.crooSorted_eq' s hbin
+
+theorem croo_perm_invariant (ps qs : List (Int × Nat)) (h : ps.Perm qs) (hd : (ps.map (·.1)).Nodup) : croo ps = croo qs := by
+  unfold croo
+  rw [Discrete.sortDesc_perm_invariant ps qs h hd]
+
+theorem croo_le_lroo (ps : List (Int × Nat)) (hbin : ∀ p ∈ ps, p.2 = 0 ∨ p.2 = 1) : croo ps ≤ max (lroo (chrono ps)) 1 := by
+  have hb : ∀ x ∈ (sortDesc ps).map (·.2), x = 0 ∨ x = 1 := by
+    intro x hx
+    obtain ⟨p, hp, rfl⟩ := List.mem_map.1 hx
+    exact hbin p ((Discrete.sortDesc_perm ps).subset hp)
+  have hc : chrono ps = ((sortDesc ps).map (·.2)).reverse := by
+    simp [chrono, List.map_reverse]
+  unfold croo
+  rw [crooSorted_eq _ hb, hc]
+  exact lroo_upper _ _ _
+    (Discrete.isRun_reverse _ _ (Discrete.isRun_leadingRun _))
+
+/-- the current run is exactly the trailing run of the chronological series -/
+theorem croo_is_trailing_run (ps : List (Int × Nat)) (hbin : ∀ p ∈ ps, p.2 = 0 ∨ p.2 = 1) :
+    IsRun (chrono ps) ((chrono ps).length - croo ps) (croo ps) := by
+  have hb : ∀ x ∈ (sortDesc ps).map (·.2), x = 0 ∨ x = 1 := by
+    intro x hx
+    obtain ⟨p, hp, rfl⟩ := List.mem_map.1 hx
+    exact hbin p ((Discrete.sortDesc_perm ps).subset hp)
+  have hc : chrono ps = ((sortDesc ps).map (·.2)).reverse := by
+    simp [chrono, List.map_reverse]
+  unfold croo
+  rw [crooSorted_eq _ hb, hc, List.length_reverse]
+  exact Discrete.isRun_reverse _ _ (Discrete.isRun_leadingRun _)
+
+/-- the sort really sorts: descending time, and a permutation of the input -/
+theorem sortDesc_spec (ps : List (Int × Nat)) (hd : (ps.map (·.1)).Nodup) :
+    (sortDesc ps).Perm ps ∧ (sortDesc ps).Pairwise (fun a b => b.1 < a.1) :=
+  ⟨Discrete.sortDesc_perm ps, Discrete.sortDesc_sorted ps hd⟩
+
+-- non-vacuity: a series with two runs (lengths 2 and 3)
+example : lroo [1, 1, 0, 1, 1, 1, 0, 1] = 3 := by decide
+example : IsRun [1, 1, 0, 1, 1, 1, 0, 1] 3 3 := by
+  refine ⟨by decide, ?_⟩
+  intro k hk
+  have : k = 0 ∨ k = 1 ∨ k = 2 := by omega
+  rcases this with rfl | rfl | rfl <;> rfl
+example : IsRun [1, 1, 0, 1, 1, 1, 0, 1] 0 2 := by
+  refine ⟨by decide, ?_⟩
+  intro k hk
+  have : k = 0 ∨ k = 1 := by omega
+  rcases this with rfl | rfl <;> rfl
+-- isolated ones only: no run of length ≥ 2, output 0 (never 1)
+example : lroo [1, 0, 1, 0, 0, 1] = 0 := by decide
+example : lroo [0, 0, 0] = 0 := by decide
+example : crooSorted [1, 1, 1, 0, 1] = 3 := by decide
+example : leadingRun [1, 1, 1, 0, 1] = 3 := by decide
+-- a permutation pair for croo: times 10,20,30,40 stored out of order; newest-first values 1,1,0,1
+example : croo [(10, 1), (20, 0), (30, 1), (40, 1)] = 2 := by decide
+example : croo [(30, 1), (10, 1), (40, 1), (20, 0)] = 2 := by decide
+example : [(10, 1), (20, 0), (30, 1), (40, 1)].Perm [(30, 1), ((10 : Int), (1 : Nat)), (40, 1), (20, 0)] := by decide
+example : chrono [(30, 1), (10, 1), (40, 1), (20, 0)] = [1, 0, 1, 1] := by decide
+-- duplicate timestamps: the hypothesis `Nodup` of `croo_perm_invariant` is needed
+example : croo [(1, 1), (1, 0)] ≠ croo [(1, 0), (1, 1)] := by decide
 
 end Hdc.C18
